@@ -85,6 +85,20 @@ class TimeInterface(object):
     time_unit = None
 
 
+def _plain_number(x):
+    """Numpy integer scalars and 0-d arrays of bare numbers as plain numbers.
+
+    The product of a Python int and a narrow numpy integer is formed in the
+    narrow type: ``40000 * np.int16(2)`` raises, ``100000 * np.int32(50000)``
+    wraps around."""
+    if (isinstance(x, np.ndarray) and x.ndim == 0
+            and not isinstance(x, TimeInterface)):
+        x = x[()]
+    if isinstance(x, np.integer):
+        x = int(x)
+    return x
+
+
 def get_time_unit(obj):
     """
     Extract the time unit of the object. If it is an iterable, get the time
@@ -565,6 +579,10 @@ class UniformTime(np.ndarray, TimeInterface):
             The time unit to be used in the representation of time
 
         """
+
+        length, duration, sampling_rate, sampling_interval, t0 = [
+            _plain_number(x) for x in
+            (length, duration, sampling_rate, sampling_interval, t0)]
 
         # Sanity checks. There are different valid combinations of inputs
         tspec = tuple(x is not None for x in
@@ -1356,6 +1374,10 @@ class TimeSeries(TimeSeriesBase):
         2.0 Hz
 
         """
+
+        t0, sampling_interval, sampling_rate, duration = [
+            _plain_number(x) for x in
+            (t0, sampling_interval, sampling_rate, duration)]
 
         #If a UniformTime object was provided as input:
         if isinstance(time, UniformTime):
